@@ -799,6 +799,12 @@ func init() {
 							continue // tree construction cost
 						}
 						cs = append(cs, fw.Case{ID: fmt.Sprintf("h%d/w%d", h, w), Kind: "tree", P: map[string]any{"h": h, "w": w, "corr": corr}})
+						if (h == 6 || h == 8) && w == 5 {
+							cs = append(cs, fw.Case{ID: fmt.Sprintf("h%d/w%d/cap32", h, w), Kind: "cap32", P: map[string]any{"h": h, "w": w}})
+						}
+						if h <= 8 && (w == 1 || w == 5 || w == 10) {
+							cs = append(cs, fw.Case{ID: fmt.Sprintf("h%d/w%d/repeated_subtrees", h, w), Kind: "tree", P: map[string]any{"h": h, "w": w, "corr": corr, "repeat": 1}})
+						}
 						if (h == 8 && w == 5) || (h == 5 && w == 2) || (h == 6 && w == 10) {
 							cs = append(cs, fw.Case{ID: fmt.Sprintf("compiled/r1cs/h%d/w%d", h, w), Kind: "compiled", P: map[string]any{"h": h, "w": w, "sys": "r1cs"}})
 							if !ctx.Quick {
@@ -823,6 +829,63 @@ func init() {
 					for j := range leaves[i] {
 						leaves[i][j] = randGL(r)
 					}
+				}
+				if c.Int("repeat") == 1 {
+					// repeated subtrees: the second quarter of the leaves equals the first one, the last
+					// leaves are all equal (several cap entries hold the same digest)
+					for i := 0; i < n/4; i++ {
+						leaves[n/4+i] = append([]ref.F(nil), leaves[i]...)
+					}
+					for i := 3 * n / 4; i < n; i++ {
+						leaves[i] = append([]ref.F(nil), leaves[3*n/4]...)
+					}
+				}
+				if c.Kind == "cap32" {
+					// a cap of 32 entries with five cap-index bits: either refused, or the slot named by
+					// ALL five bits must hold the digest (never a slot named by a part of the bits)
+					t5 := ref.BuildMerkle(leaves, 5)
+					for k := 0; k < 6; k++ {
+						slot := 16 + r.Intn(16)
+						lowBits := h - 5
+						idx := slot<<uint(lowBits) | r.Intn(1<<uint(lowBits))
+						sib := t5.Prove(idx)
+						cap := append([]fr.Element(nil), t5.Cap...)
+						// the digest sits in slot-16 only; the named slot holds something else
+						cap[slot-16] = cap[slot]
+						cap[slot].SetUint64(uint64(12345 + k))
+						res := harnRunOpt(engine.Options{Face: engine.Native}, func(api frontend.API) error {
+							cd := types.CommonCircuitData{}
+							fc := fri.NewChip(api, &cd, &cd.FriParams)
+							lv := make([]gl.Variable, w)
+							for i := range lv {
+								lv[i] = gl.NewVariable(leaves[idx][i])
+							}
+							lb := make([]frontend.Variable, lowBits)
+							for i := range lb {
+								lb[i] = (idx >> uint(i)) & 1
+							}
+							cb := make([]frontend.Variable, 5)
+							for i := range cb {
+								cb[i] = (slot >> uint(i)) & 1
+							}
+							mc := make(variables.FriMerkleCap, 32)
+							for i := range mc {
+								mc[i] = frBig(cap[i])
+							}
+							mp := variables.FriMerkleProof{}
+							for _, s := range sib {
+								mp.Siblings = append(mp.Siblings, frBig(s))
+							}
+							fc.VerifMerkle(lv, lb, cb, mc, &mp)
+							return nil
+						})
+						o.Events += events(res) + 1
+						if res.Verdict == engine.Accept {
+							return fw.Violate("merkle_accepts_wrong_opening:cap_of_32_entries", fmt.Sprintf("height %d: opening for cap slot %d accepted although the digest sits in slot %d", h, slot, slot-16))
+						}
+						o.Inc("cap32_" + res.Verdict.String())
+					}
+					return o
 				}
 				tree := ref.BuildMerkle(leaves, 4)
 				if c.Kind == "compiled" {
@@ -933,7 +996,7 @@ func init() {
 						idxs = append(idxs, r.Intn(n))
 					}
 				}
-				corrs := []string{"none", "leaf", "sibling", "indexbit", "capbit", "capsel", "capunsel", "swaplr", "wrongslot", "nonboolbit"}
+				corrs := []string{"none", "leaf", "sibling", "indexbit", "capbit", "capsel", "capunsel", "swaplr", "wrongslot", "nonboolbit", "zerosibling"}
 				for _, idx := range idxs {
 					sib := tree.Prove(idx)
 					for _, corr := range corrs {
@@ -946,6 +1009,15 @@ func init() {
 						low := index & (1<<uint(lowBits) - 1)
 						var bit0 *big.Int // non-boolean value in the first index-bit position
 						switch corr {
+						case "zerosibling":
+							// the top sibling replaced by 0 and the selected cap entry by the node below
+							// the cap: a gadget that treats a zero sibling as "no level" would accept
+							if len(sb) == 0 {
+								continue
+							}
+							below, _ := ref.MerkleFold(leaf, low, sb[:len(sb)-1])
+							sb[len(sb)-1].SetZero()
+							cap[capIdx] = below
 						case "nonboolbit":
 							// a leaf that is not in the tree, a crafted first sibling s' = L+R-d and the
 							// "bit" t = (L-d)/(s'-d): an ordering computed arithmetically from the bit
@@ -1292,6 +1364,17 @@ func init() {
 							return fw.Violate("pow_difficulty_read_from_the_wrong_configuration_copy", fmt.Sprintf("%s: response has %d leading zeros, fri_params.config.proof_of_work_bits = %d (config.fri_config unchanged) and the proof is accepted", c.ID, lz, lz+1))
 						}
 						o.Inc("fri_params_copy_decides_difficulty")
+						// the grinding requirement does not depend on the other security parameters
+						for _, sbits := range []uint64{0, 1, 84, 200} {
+							v := strict.Clone()
+							v.Common.Config.SecurityBits = sbits
+							res := runVerifier(v, engine.Options{Face: engine.Native})
+							o.Events += events(res)
+							if res.Verdict == engine.Accept {
+								return fw.Violate("pow_check_switched_off_by_other_parameter", fmt.Sprintf("%s: security_bits = %d, response has %d leading zeros, %d required: accepted", c.ID, sbits, lz, lz+1))
+							}
+						}
+						o.Inc("security_bits_do_not_switch_the_check_off")
 					}
 					o.Inc("second_chip_uses_its_own_difficulty")
 					o.Sample = map[string]any{"response_leading_zeros": lz, "second_chip_pow_bits": lz + 1}
